@@ -197,7 +197,7 @@ impl Prop for C12 {
     fn check(&self, c: &Case, ctx: &mut Ctx) -> Outcome {
         check_case(c, ctx)
     }
-    fn extras(&self, _tier: Tier, _seed: u64, shard: u32, nshards: u32, sink: &mut dyn FnMut(Case, &'static str)) {
+    fn extras(&self, tier: Tier, _seed: u64, shard: u32, nshards: u32, sink: &mut dyn FnMut(Case, &'static str)) {
         let lists = enumerate_multisets(&small_lattice(), 3);
         let mut n = 0u32;
         for ends in &lists {
@@ -211,14 +211,20 @@ impl Prop for C12 {
             for i in 0..m {
                 for j in 0..m {
                     for k in 0..m {
-                        sink(Case { pw: spec.clone(), xs: vec![B(alpha[i]), B(alpha[j]), B(alpha[k])] }, "short-sequences");
+                        if tier == Tier::Thorough {
+                            for l in 0..m {
+                                sink(Case { pw: spec.clone(), xs: vec![B(alpha[i]), B(alpha[j]), B(alpha[k]), B(alpha[l])] }, "short-sequences");
+                            }
+                        } else {
+                            sink(Case { pw: spec.clone(), xs: vec![B(alpha[i]), B(alpha[j]), B(alpha[k])] }, "short-sequences");
+                        }
                     }
                 }
             }
         }
     }
     fn exhaustive_scopes(&self, _tier: Tier) -> Vec<String> {
-        vec!["all argument sequences of length 3 (prefixes cover 1, 2) over the full alphabet, for all sorted multisets of 1..=3 ends over {-1,-0.0,0.0,1,nextup(1)}".into()]
+        vec!["all argument sequences of length 3 (thorough tier: 4; prefixes cover the shorter ones) over the full alphabet, for all sorted multisets of 1..=3 ends over {-1,-0.0,0.0,1,nextup(1)}".into()]
     }
     fn from_bytes(&self, u: &mut Unstructured) -> Option<Case> {
         let pw = pw_from_bytes(u, 10)?;
